@@ -460,6 +460,12 @@ func (ex *Exec) strConcat(st *State, a, b *Term) *Term {
 }
 
 func (ex *Exec) strSub(st *State, s, lo, hi *Term) *Term {
+	// s[lo:] of a string whose length the path knows: use the numeral
+	if hi.Op == "app" && hi.Name == "slen" && len(hi.Args) == 1 {
+		if n, ok := ex.knownStrLen(st, hi.Args[0]); ok {
+			hi = IntLit(n)
+		}
+	}
 	if c, ok := ex.strLitContent(s); ok {
 		l, ok1 := lo.Int64()
 		h, ok2 := hi.Int64()
